@@ -859,7 +859,7 @@ def scan_guards(repo, consts, flags):
         r'already_seen\.push_back\(first_account_name\); result = find_account\(\(\*j\)\.second->fullname\(\) \+ name\.substr\(colon\)\); '
         r'name = result->fullname\(\); \} else \{ keep_expanding = false; \} \} else \{ keep_expanding = false; \} \} \} else \{ keep_expanding = false; \} '
         r'\} while ?\(keep_expanding && recursive_aliases\);', jc))
-    # the repairs proposed for F54, F55, F56 (false while they are not in the source)
+    # the repairs proposed for F57, F58, F59 (false while they are not in the source)
     dc = norm(strip_comments(open(os.path.join(src, 'draft.cc'), errors='replace').read()))
     g['draft_cost_post_guard'] = bool(re.search(
         r'else if \(arg == "@" \|\| arg == "@@"\) \{ if \(! post\) \{ if \(tmpl->posts\.empty\(\)\) throw std::runtime_error\([^;]*\); '
@@ -967,7 +967,7 @@ def generate(repo):
           'Definition src_conversion_cycle_by_referent : bool := %s.' % bl(g['conversion_cycle_by_referent']),
           'Definition src_calc_depth_limit : option Z := %s.' % opt(g['calc_depth_limit']),
           'Definition src_format_width_limit : option Z := %s.' % opt(g['format_width_limit']),
-          '(* the repairs proposed for F54 F55 F56: false while they are not in the source *)',
+          '(* the repairs proposed for F57 F58 F59: false while they are not in the source *)',
           'Definition src_draft_cost_post_guard : bool := %s.' % bl(g['draft_cost_post_guard']),
           'Definition src_include_self_guard : bool := %s.' % bl(g['include_self_guard']),
           'Definition src_conversion_larger_chain_guard : bool := %s.' % bl(g['conversion_larger_chain_guard']),
